@@ -3,7 +3,7 @@
 PATCH="$1"; shift
 cd /repo || exit 2
 git diff --quiet || { echo "/repo is dirty"; exit 2; }
-git apply -C1 --recount "$PATCH" 2>/dev/null || git apply -3 "$PATCH" || { echo "PATCH-DOES-NOT-APPLY $PATCH"; exit 3; }
+git apply -C1 --recount "$PATCH" 2>/dev/null || git apply -3 "$PATCH" || { git reset -q --hard HEAD; echo "PATCH-DOES-NOT-APPLY $PATCH"; exit 3; }
 RES=""
 for P in "$@"; do
     OUT=$(cd /verif && ./check "$P" --tier quick 2>&1); RC=$?
